@@ -19,7 +19,7 @@ Your task: produce ONE realistic, small source change (a plausible bug a maintai
   (b) the ENTIRE existing test suite still passes: `cd {wt} && cargo test --workspace --no-fail-fast --offline` must show no failures (run it and confirm).
 The change must need something specific to manifest — an unusual input, a multi-step sequence of operations, a particular configuration or position — NOT something ordinary use would expose at once. {angle}
 
-Also write a demonstration: a new integration test file {wt}/tests/seeded_demo.rs (using only the public API of the crate `stam`) with one #[test] that FAILS with your change and PASSES without it. Verify both: run `cargo test --offline --test seeded_demo` with your change (must fail), then `git stash` the src change only (keep the demo file), run it again (must pass), then `git stash pop`.
+Also write a demonstration: a new integration test file {wt}/tests/seeded_demo.rs (using only the public API of the crate `stam`) with one #[test] that FAILS with your change and PASSES without it. Verify both: run `cargo test --offline --test seeded_demo` with your change (must fail), then save your change with `git diff -- src > /tmp/$(basename {wt}).patch`, revert the sources with `git checkout -- src` (keep the demo file), run the demo again (must pass), then re-apply with `git apply /tmp/$(basename {wt}).patch`. Do NOT use `git stash` (the stash is shared between worktrees and other people are working in sibling worktrees).
 
 When done, leave the worktree with your source change applied (uncommitted) and the demo test file present. Write {wt}/SEEDED.md with: what you changed and why it breaks the property, what it needs in order to manifest, and the exact commands you ran with their outcomes. Then save the source change as a patch: `cd {wt} && git diff -- src > {wt}/patch.diff`.
 In your final answer, report: the one-paragraph description, whether the full test suite passed with the change, and whether the demo fails with / passes without the change. Do not delete the target directory.""")
